@@ -54,7 +54,8 @@ def run(ctx):
         hists += ctx.generate(g3, simulate=200, depth=11)
     hists = [fc.observers(rng, fc.PATHS, [fc.norm_op(op, rng) for op in h], 0.1) for h in hists]
     # G4: seeded random input scripts with hard links, overwrites keeping some chunks, renames
-    hists += fc.random_scripts(rng, 400 if ctx.thorough else 80, 12, WEIGHTS)
+    hists += fc.random_scripts(rng, 400 if ctx.thorough else 70, 12, WEIGHTS)
+    hists += fc.revert_scripts(rng, 150 if ctx.thorough else 20)
     hists = fc.finding_scripts("C20") + hists
     fc.drive_and_judge(ctx, hists, nontrivial, mutate, ["C20"])
     ctx.rule = ("executions = one TLC witness history per (namespace state incl. link records and scheduled chunks, last "
